@@ -54,7 +54,11 @@ Matching(s, op, e) ==
 ProgClause(s, op) ==
   LET L == s.o
       bad == Has(L, op.f) /\ IsInvalid(L.fields[op.f]) IN
-  CASE op.k = "set" -> IF op.c = "valid" THEN "C18.valid-rejected" ELSE "C18.level3-not-at-set"
+  CASE op.k = "set" -> IF op.c = "valid" THEN "C18.valid-rejected"
+                       ELSE IF L.lvl = 3 THEN "C18.level3-not-at-set"
+                       \* below level 3: the invalid value was neither stored nor refused, so
+                       \* nothing can report it any more
+                       ELSE "C18.validate-missed"
     [] op.k \in {"validate", "vfield"} -> IF bad THEN "C18.validate-missed" ELSE "C18.valid-rejected"
     [] op.k \in {"write", "str"} -> IF bad THEN "C18.level2-not-at-write" ELSE "C18.valid-rejected"
     [] OTHER -> "C18.valid-rejected"
